@@ -172,7 +172,7 @@ pub fn load_reply(bytes: &[u8]) -> String {
         Ok(Ok(d)) => format!("ok {} {} {} {} {} {}", d.max_id, d.xref_start, hex_tok(d.version.as_bytes()), hex_tok(&d.binary_mark),
             show_obj(&Object::Dictionary(d.trailer.clone())), show_objects(d.objects.iter())),
         Ok(Err(_)) => "err".into(),
-        Err(_) => "panic".into(),
+        Err((site, msg)) => format!("panic {} {}", site, msg.replace('\n', " ")),
     }
 }
 
